@@ -426,6 +426,20 @@ int main(void)
 			memcpy(tmp, ((const uint8_t *) (arr->_buf + 1)) + a * e, e);
 			RES_PTR(mpt_array_set(arr, arr->_buf->_content_traits, e, tmp, (long) a));
 		}
+		else if (!strcmp(op, "selfrot") && drv_nw == 4) {
+			/* the whole content is written back rotated by k elements: every source element is a second pointer to a
+			 * referent whose only owner may be one of the replaced elements (the source is a copy of the element bytes) */
+			const MPT_STRUCT(type_traits) *t = arr->_buf ? arr->_buf->_content_traits : 0;
+			size_t e = esize_of(arr->_buf), n = count_of(arr->_buf);
+			uint8_t *tmp;
+			void *r;
+			if (!n || n > 64 || (t != &tr_tok && t != tr_arr && t != tr_meta) || drv_parse_nat(drv_w[3], &a) || a > 1000) BAD;
+			tmp = malloc(n * e);
+			for (size_t i = 0; i < n; i++) memcpy(tmp + i * e, ((const uint8_t *) (arr->_buf + 1)) + ((i + a) % n) * e, e);
+			r = mpt_array_set(arr, t, n * e, tmp, 0);
+			free(tmp);
+			RES_PTR(r);
+		}
 		else if (!strcmp(op, "sput") && drv_nw == 5) {
 			/* the array of h as the dimensions of a raw data stage: val = mpt_stage_data(stage, dim), then one more
 			 * value in that dimension (mpt_values_prepare on the array inside the returned element) */
@@ -443,7 +457,7 @@ int main(void)
 		}
 		else if (!strcmp(op, "mnew") && drv_nw == 5) {
 			/* fresh array of k references to new metatype instances (sharable: s = 1) */
-			if (drv_parse_nat(drv_w[3], &a) || a > 8 || drv_parse_nat(drv_w[4], &b) || b > 1) BAD;
+			if (drv_parse_nat(drv_w[3], &a) || a > 64 || drv_parse_nat(drv_w[4], &b) || b > 1) BAD;
 			mpt_array_clone(arr, 0);
 			if (!mpt_array_reserve(arr, a * sizeof(void *), tr_meta)) { RES("refused", "null"); goto next; }
 			for (size_t i = 0; i < a; i++) {
